@@ -240,6 +240,16 @@ def run_unit(ctx, name, **kw):
         ctx.sample({"fn": "factorization", "range": [kw["lo"], kw["hi"]]})
     elif name == "factorization-built":
         primes = RN.sieve(200000)
+        beyond = [q for q in primes if 1229 < q < 1400] + [10007, 99991, 199999]
+        for q in beyond:
+            for m in (1, 2, 6, 1229, 1223 * 1229):
+                check_factorization(ctx, m * q * q, RN.factor(m * q * q))
+                check_factorization(ctx, m * q ** 3, RN.factor(m * q ** 3))
+            check_factorization(ctx, q * beyond[(beyond.index(q) + 1) % len(beyond)],
+                                RN.factor(q * beyond[(beyond.index(q) + 1) % len(beyond)]))
+        for q in (1223, 1229):
+            check_factorization(ctx, q * q, [(q, 2)])
+            check_factorization(ctx, q * 1231, sorted([(q, 1), (1231, 1)]))
 
         def body(c, picks):
             f = {}
